@@ -44,6 +44,15 @@ func autoDetectPacketSize(r io.Reader) (packetSize int, err error) {
 	// Read first bytes
 	const l = 193
 	var b = make([]byte, l)
+
+	// Remember where a seekable reader stands: the stream starts there, not necessarily at offset 0
+	var start int64
+	if s, ok := r.(io.Seeker); ok {
+		if start, err = s.Seek(0, io.SeekCurrent); err != nil {
+			start, err = 0, nil
+		}
+	}
+
 	shouldRewind, rerr := peek(r, b)
 	if rerr != nil {
 		err = fmt.Errorf("astits: reading first %d bytes failed: %w", l, rerr)
@@ -75,6 +84,12 @@ func autoDetectPacketSize(r io.Reader) (packetSize int, err error) {
 				var ls = packetSize - (l - packetSize)
 				if _, err = io.ReadFull(r, make([]byte, ls)); err != nil {
 					err = fmt.Errorf("astits: reading %d bytes to sync reader failed: %w", ls, err)
+					return
+				}
+			} else if start > 0 {
+				// Put the reader back where the stream starts
+				if _, err = r.(io.Seeker).Seek(start, io.SeekStart); err != nil {
+					err = fmt.Errorf("astits: seeking to %d failed: %w", start, err)
 					return
 				}
 			}
